@@ -193,6 +193,11 @@ def longest_key_prefix(s):
     return max(c, key=len) if c else None
 
 
+def assume_lemma(name, fact):
+    assert fact, "instance of assumed lemma %s is false" % name
+    return True
+
+
 def int_value(s, base=10):
     import sys
     if hasattr(sys, "set_int_max_str_digits"):
